@@ -158,8 +158,16 @@ class Check:
 
     def build(self, extra_targets: tuple[str, ...] = ()):
         """lake build SV.Props.<prop> (+ driver deps). A failure is recorded as broken obligations, not raised."""
-        targets = [f"SV.Props.{self.prop}", f"SV.Model.{self.prop}", *extra_targets]
-        targets = [t for t in targets if (LEAN / (t.replace(".", "/") + ".lean")).exists()]
+        targets = [f"SV.Props.{self.prop}", f"SV.Model.{self.prop}", "SV.Audit", "SV.Wire", "SV.Spec.JsonSchemaWire", *extra_targets]
+        # everything the drivers of this property import must be built too (a fresh checkout has no .lake)
+        for drv in {self.prop, *getattr(self, "driver_names", ())}:
+            dp = LEAN / "Drivers" / f"{drv}.lean"
+            if dp.exists():
+                for line in dp.read_text().splitlines():
+                    mm = re.match(r"\s*import\s+(SV[\w.]*)", line)
+                    if mm:
+                        targets.append(mm.group(1))
+        targets = sorted({t for t in targets if (LEAN / (t.replace(".", "/") + ".lean")).exists()})
         lock = _lock()
         try:
             r = sh(["lake", "build", *targets], cwd=LEAN, timeout=3000)
@@ -367,6 +375,7 @@ def main(argv=None) -> int:
         if a.replay:
             return mod.replay(chk, json.loads((ROOT / a.replay).read_text()) if not os.path.isabs(a.replay)
                               else json.loads(Path(a.replay).read_text()))
+        chk.driver_names = tuple(getattr(mod, "DRIVERS", ()))
         if hasattr(mod, "prepare"):
             mod.prepare(chk)   # e.g. regenerate SV/Generated tables from /repo before the build
         ok = chk.build(getattr(mod, "EXTRA_TARGETS", ()))
